@@ -242,6 +242,9 @@ def sheets(ctx):
         specs.append(([(a, "none"), (b, "none")], O.SETTINGS if not ctx.quick else [(0, False, None), (1, True, None), (2, False, "#1e1e1e"), (1, False, None)]))
         if b not in fixed:
             specs.append(([(a, "none"), (b, "media")], base))
+    # the recorded known findings that need three rules are exercised in both tiers (so that each listed finding is observed)
+    specs.append(([("var_t", "none"), ("var_t", "none"), ("var_t_other_bg", "none")], [(2, True, "#1e1e1e")]))
+    specs.append(([("var_t", "none"), ("var_t", "none"), ("star_hack", "none")], [(1, False, None)]))
     if not ctx.quick:
         V = ["var_t", "var_t_other_bg", "var_chained", "var_fallback_defined", "lit_fail", "root_literal", "html_literal", "var_html", "bg_var",
              "star_hack", "upper_prop", "unfixable", "readable"]
